@@ -361,24 +361,42 @@ impl ASN1Type {
         &mut self,
         tlds: &BTreeMap<String, ToplevelDefinition>,
     ) -> bool {
+        self.link_components_of_notation_from(tlds, &mut Vec::new())
+    }
+
+    /// `visiting` holds the types whose `COMPONENTS OF` notations are being resolved
+    /// on the way to `self`, so that a circular chain of notations ends.
+    fn link_components_of_notation_from(
+        &mut self,
+        tlds: &BTreeMap<String, ToplevelDefinition>,
+        visiting: &mut Vec<String>,
+    ) -> bool {
         match self {
             // every alternative / member is visited (`any` would stop at the first that links)
-            ASN1Type::Choice(c) => c
-                .options
-                .iter_mut()
-                .fold(false, |linked, o| {
-                    o.ty.link_components_of_notation(tlds) || linked
-                }),
+            ASN1Type::Choice(c) => c.options.iter_mut().fold(false, |linked, o| {
+                o.ty.link_components_of_notation_from(tlds, visiting) || linked
+            }),
             ASN1Type::Set(s) | ASN1Type::Sequence(s) => {
                 let mut member_linking = s.members.iter_mut().fold(false, |linked, m| {
-                    m.ty.link_components_of_notation(tlds) || linked
+                    m.ty.link_components_of_notation_from(tlds, visiting) || linked
                 });
                 // TODO: properly link components of in extensions
                 // TODO: link components of Class field, such as COMPONENTS OF BILATERAL.&id
-                for comp_link in &s.components_of {
-                    if let Some(ToplevelDefinition::Type(linked)) = tlds.get(comp_link) {
+                // A resolved notation is removed, so that a type that still carries
+                // notations is known not to have been linked yet.
+                for comp_link in std::mem::take(&mut s.components_of) {
+                    if visiting.contains(&comp_link) {
+                        continue;
+                    }
+                    if let Some(ToplevelDefinition::Type(linked)) = tlds.get(&comp_link) {
+                        // The referenced type may come later in the linking order:
+                        // its own notations are resolved before its components are copied.
+                        let mut linked_ty = linked.ty.clone();
+                        visiting.push(comp_link);
+                        linked_ty.link_components_of_notation_from(tlds, visiting);
+                        visiting.pop();
                         if let ASN1Type::Sequence(linked_seq) | ASN1Type::Set(linked_seq) =
-                            &linked.ty
+                            &linked_ty
                         {
                             linked_seq
                                 .members
@@ -401,7 +419,9 @@ impl ASN1Type {
                 }
                 member_linking
             }
-            ASN1Type::SequenceOf(so) => so.element_type.link_components_of_notation(tlds),
+            ASN1Type::SequenceOf(so) => so
+                .element_type
+                .link_components_of_notation_from(tlds, visiting),
             _ => false,
         }
     }
